@@ -3,6 +3,9 @@
 proof side : lean/Heph/Props/C12.lean — for the MODELLED languages (registry harness/trans_models.py; the
              translator models are those of C11) theorems for all programs: `doc_tags`, `doc_inventory`,
              `doc_pieces_partial` (+ counterexample), `annot_iff_*`, `literals_ops_present`, `balanced_partial`.
+             Groovy (lean/Heph/Props/C12Groovy.lean, imported by C12.lean; text model of C11, no tagged document):
+             `Groovy.var_annot_local/global`, `Groovy.ret_annot_method/closure`, `Groovy.call_targs_never_printed`,
+             `Groovy.new_targs_iff`, counterexamples `Groovy.var_annot_iff_counterexample`, `Groovy.ret_annot_iff_…`.
 tie to code: real pipeline runs (stages gen, erase, overwrite), every program translated by the REAL translators
              of all four languages (fresh translator, package "src.pkg").  Per (program, stage):
                specification side, from the export of the IR alone (harness/c12_scan.py, Python):
@@ -14,7 +17,12 @@ tie to code: real pipeline runs (stages gen, erase, overwrite), every program tr
                     "annotation printed iff the program carries it"; Java/Groovy classes and fields only)
                (S2) the string and char literals of the real text are exactly those of LIT (Kotlin/Scala: in order)
                (S3) () [] {} are balanced in the real text outside string / char literals
-               and for every language with a Lean model (correspondence):
+               Groovy only (harness/c12_groovy.py): (G1) the names printed as `def NAME = ` are exactly the local
+                    variables without a declared type plus the closure-functions without a non-void return type;
+                    (G2) top-level unannotated variables printed with a type, (G3) explicit call type arguments not
+                    printed: known findings, re-observed
+               and for every language with a Lean model (correspondence; a model without a tagged document, i.e.
+               without `doc_op` in the registry — Groovy — has leg K1 only: model text == real text):
                (K1) flatten(model doc) == real text                      [`trans.kotlin.doc`]
                (K2) Lean `inventory p` == INV (tags and names)           [`trans.kotlin.inventory`]
                (K3) declaration tags of the model doc == INV             [theorem doc_inventory, observed]
@@ -35,6 +43,7 @@ import time
 import common
 import pipeline
 import trans_models
+import c12_groovy
 import c12_scan as cs
 from trans_models import LANGS, MODELS
 from check_C11 import stream_results
@@ -168,6 +177,8 @@ def java_annotation_legs(run, spec, stage, text, inv, found):
 # ------------------------------------------------------------------ model legs
 def model_requests(L, e):
     m = MODELS[L]
+    if "doc_op" not in m:       # a model without a tagged document: text only (leg K1)
+        return [{"op": m["op"], "program": e, "package": "src.pkg"}]
     rq = [{"op": m["doc_op"], "program": e, "package": "src.pkg"},
           {"op": m["inv_op"], "program": e}]
     if "sem_op" in m:           # K4 only for a language whose model has the IR-side `semProgram`
@@ -180,9 +191,13 @@ def model_judge(run, L, ans, text, inv, lit):
     for a in ans:
         if "error" in a:
             raise common.HarnessError("driver error (%s): %s" % (L, a["error"]))
+    import c11_plugin
+    if "doc_op" not in MODELS[L]:
+        if ans[0]["r"] != text:
+            out.append(("K1 model-text=text", c11_plugin.first_diff(text, ans[0]["r"])))
+        return out
     doc, linv = ans[0]["r"], ans[1]["r"]
     sem = ans[2]["r"] if len(ans) > 2 else None
-    import c11_plugin
     flat = "".join(p[2] for p in doc)
     if flat != text:
         out.append(("K1 flatten(doc)=text", c11_plugin.first_diff(text, flat)))
@@ -320,6 +335,8 @@ def run_stream(run, specs, found, label, budget_s=10 ** 6):
                     continue
                 run.tally("texts", L)
                 if judge_text(run, spec, stage, L, text, inv, lit, lit_nodef, found):
+                    direct_bad.append((spec, stage, L))
+                if L == "groovy" and c12_groovy.annotation_legs(run, spec, stage, text, e, inv, found, replay_of):
                     direct_bad.append((spec, stage, L))
                 if L in MODELS:
                     rq = model_requests(L, e)
